@@ -4,7 +4,7 @@ from pysym.cx import harness
 from .C04 import PARTS
 from .common import arbitrary_parser, decide
 
-OPS = ['none', 'get_message', 'pending', 'iterate', 'len+get']
+OPS = ['none', 'get_message', 'pending', 'iterate', 'len+get', 'iterate+get']
 
 
 def _retrieve(cx, p, op, got):
@@ -22,6 +22,18 @@ def _retrieve(cx, p, op, got):
         if m is not None:
             got.append(m)
             cx.check(p.pending() == n - 1, 'pending-counts-down')
+        return
+    if op == 'iterate+get':
+        # a live iterator while another retrieval call takes messages too
+        k = 0
+        for m in p:
+            got.append(m)
+            k += 1
+            x = p.get_message()
+            if x is not None:
+                got.append(x)
+                k += 1
+        cx.check(k == n and p.pending() == 0, 'iteration-drains-pending')
         return
     if op == 'iterate':
         k = 0
@@ -185,7 +197,7 @@ def parser_queue(cx, N):
 
 
 BOUNDS = {
-    'quick': 'bounded direct: all byte strings of length <=2 x all chunkings x feed(list)/feed_byte x 5 retrieval ops '
+    'quick': 'bounded direct: all byte strings of length <=2 x all chunkings x feed(list)/feed_byte x 6 retrieval ops '
              'between chunks, and length 3 x all 4 chunkings through feed(list) (no ops); inductive lemmas from every '
              'tokenizer state satisfying the invariant (buffer <=4, idle stale <=2) with 1 queued message: '
              'feed([b]) = feed_byte(b), feed([b1,b2]) = feed([b1]);feed([b2]), feed(empty) no-op; retrieval ops commute '
